@@ -104,6 +104,46 @@ pub fn table_family(max_crossings: usize, links: bool) -> Vec<(String, Diagram)>
     out
 }
 
+/// The PD code of the diagram obtained by smoothing crossing `c` of `d` (bit = false: slots (0,1)(2,3)
+/// joined, true: (0,3)(1,2), the convention of `Diagram::circles`): the crossing is dropped and the
+/// edge labels that the smoothing joins are identified (smallest label of the class).  `None` if a
+/// closed loop without any crossing would split off (it has no PD code) or nothing is left.
+/// Together with `Link::resolved_at` this gives two presentations of the same diagram: one that still
+/// lists the smoothed crossing, one that does not.
+pub fn smoothed_pd(d: &Diagram, c: usize, bit: bool) -> Option<Vec<[usize; 4]>> {
+    let code = d.pd();
+    let n2 = 2 * d.n;
+    let mut p: Vec<usize> = (0..=n2).collect();
+    fn find(p: &mut Vec<usize>, x: usize) -> usize {
+        let mut r = x;
+        while p[r] != r {
+            r = p[r];
+        }
+        p[x] = r;
+        r
+    }
+    let x = code[c];
+    let pairs = if bit { [(x[0], x[3]), (x[1], x[2])] } else { [(x[0], x[1]), (x[2], x[3])] };
+    for (a, b) in pairs {
+        let (ra, rb) = (find(&mut p, a), find(&mut p, b));
+        if ra != rb {
+            p[ra.max(rb)] = ra.min(rb);
+        }
+    }
+    let out: Vec<[usize; 4]> = code.iter().enumerate().filter(|(k, _)| *k != c).map(|(_, y)| [find(&mut p, y[0]), find(&mut p, y[1]), find(&mut p, y[2]), find(&mut p, y[3])]).collect();
+    if out.is_empty() {
+        return None;
+    }
+    // every class must still occur at a remaining crossing, otherwise a free loop split off
+    let present: std::collections::BTreeSet<usize> = out.iter().flatten().cloned().collect();
+    for l in 1..=n2 {
+        if !present.contains(&find(&mut p, l)) {
+            return None;
+        }
+    }
+    Some(out)
+}
+
 /// stable textual id of a diagram (its PD code)
 pub fn code_string(d: &Diagram) -> String {
     format!("{:?}", d.pd()).replace(' ', "")
